@@ -529,6 +529,15 @@ class Flow:
             return out
         if kind == "assign":
             val = node.value
+            if isinstance(val, ast.List) and not val.elts and not path:
+                # a list filled by appends: a collection whose elements are the appended values
+                apps = [c for c in calls_in(func.node, own=True) if isinstance(c.func, ast.Attribute) and c.func.attr == "append" and c.args
+                        and isinstance(c.func.value, ast.Name) and c.func.value.id == name]
+                if apps:
+                    out = set()
+                    for c in apps:
+                        out |= {("op", "listcomp", t) for t in self.terms(c.args[0], func, depth + 1, env, seen)}
+                    return out
             ts = self.terms(val, func, depth + 1, env, seen)
             return self._project(ts, path)
         if kind == "aug":
